@@ -1,0 +1,14 @@
+//go:build verif
+
+package pcache
+
+// VerifYield, when set by a verification harness, is called at the
+// linearization points of the cache (snapshot load, snapshot store, writer lock
+// taken). It lets the harness steer goroutines through chosen interleavings.
+var VerifYield func(point string)
+
+func verifYield(point string) {
+	if f := VerifYield; f != nil {
+		f(point)
+	}
+}
